@@ -93,7 +93,15 @@ func sesString(s int) string {
 	}
 	return strconv.Itoa(500 + s)
 }
-func pidValue(p int) int     { return 2000 + p }
+// pidValue maps a history's small pid numbers to kernel PIDs (pid_max is 4194304).
+// The PIDs of one history are 65536 apart, so they coincide modulo every smaller
+// power of two: an index or cache keyed by a truncated PID must still tell them apart.
+func pidValue(p int) int {
+	if p > 0 && p < 60 {
+		return 2000 + p*65536
+	}
+	return 2000 + p
+}
 
 var evBase = time.Unix(1700000000, 0).UTC()
 
